@@ -127,6 +127,19 @@ def tts_obligations(rep):
     pre = fd.body[:fd.body.index(loop)]
     post = fd.body[fd.body.index(loop) + 1:]
     m = repo.import_module(mod)
+    # The inductive invariant below is stated over the function's own state variables. If the function keeps its state differently (renamed or
+    # restructured accumulators) the invariant does not apply: that is "representation changed", not a violation. The function is then compared with
+    # the specification of its result on generated token lists (bounded, labelled) and the lemma is reported as not established.
+    assigned = {n.id for n in ast.walk(fd) if isinstance(n, ast.Name) and isinstance(n.ctx, ast.Store)}
+    need = {'content', 'line', 'shift', 'last_pos', 'line_num'}
+    tail_ok = len(post) >= 1 and isinstance(post[-1], ast.Return) and isinstance(post[-1].value, ast.Name) and post[-1].value.id == 'content'
+    if not need <= assigned or not tail_ok or [a.arg for a in fd.args.args][:1] != ['tokens']:
+        w = tts_differential()
+        if w is not None:
+            rep.add_bounded(Bounded('C16.bounded.tts.differential', False, w[0], w[1], w[2], bound='generated token lists'))
+        rep.undecided('C16.tts', 'pysym', f'tokens_to_string keeps its state in other variables than the invariant speaks about (assigned: {sorted(assigned)}): invariant not applicable; '
+                      f'result compared with its specification on generated token lists ({"mismatch found" if w else "no mismatch"})', function=fn, soft=w is None)
+        return
 
     def token(ex, name):
         t = SymObj(None, name, prov='param')
@@ -145,6 +158,7 @@ def tts_obligations(rep):
         toks.items = {0: t0}
         env = Env(m)
         env.vars['tokens'] = toks
+        bind_defaults(env, fd)
         ex.exec_block([s for s in pre if not (isinstance(s, ast.Expr) and isinstance(s.value, ast.Constant))], env)
         ex.path_state.update(env=env, t0=t0)
         return None
@@ -179,6 +193,7 @@ def tts_obligations(rep):
                     ex.assume(z3.And(ln != line_num.t, idx >= last_pos.t + 1))        # tokenizer: >= 1 character (the newline) in between
             env = Env(m)
             env.vars.update(content=content, line=line, shift=shift, last_pos=last_pos, line_num=line_num)
+            bind_defaults(env, fd)
             ex.assign(loop.target, tok, env)
             ex.exec_block(loop.body, env)
             ex.path_state.update(env=env, tok=tok, pre=dict(content=content, line=line, shift=shift, last_pos=last_pos, line_num=line_num))
@@ -224,6 +239,7 @@ def tts_obligations(rep):
         content, line = pysym.mk_str('content'), pysym.mk_str('line')
         env = Env(m)
         env.vars.update(content=content, line=line)
+        bind_defaults(env, fd)
         from vlib.pysym.executor import ReturnSig
         try:
             ex.exec_block(post, env)
@@ -238,6 +254,75 @@ def tts_obligations(rep):
         ok, _ = ex.valid(o.value.t == z3.Concat(o.state['content'].t, o.state['line'].t), pc=o.pc)
         return None if ok else 'result is not content ++ last line'
     _run(rep, 'C16.tts.exit', run_exit, post_exit, fn, 'ensures result == content ++ line')
+
+
+def bind_defaults(env, fd):
+    """parameters with a default keep their default (the property speaks about the calls the parser makes, which pass the token list only)"""
+    a = fd.args
+    pos = a.posonlyargs + a.args
+    for arg, dflt in zip(pos[len(pos) - len(a.defaults):], a.defaults):
+        try:
+            env.vars.setdefault(arg.arg, ast.literal_eval(dflt))
+        except Exception:
+            pass
+    for arg, dflt in zip(a.kwonlyargs, a.kw_defaults):
+        if dflt is not None:
+            try:
+                env.vars.setdefault(arg.arg, ast.literal_eval(dflt))
+            except Exception:
+                pass
+
+
+def tts_spec(toks):
+    """specification of the rebuilt text: tokens in order; a token on the same line as its predecessor is preceded by as many blanks as there are
+    characters between them in the source; a token on a new line starts a new output line, indented by (gap - 1) blanks (the newline itself is one
+    character of the gap); the very first token starts at column 0"""
+    out, line = [], ''
+    last_pos, line_num = 0, toks[0].lineno
+    first = True
+    for t in toks:
+        if first:
+            gap = 0
+        elif t.lineno != line_num:
+            out.append(line)
+            line = ''
+            gap = t.index - last_pos - 1
+            line_num = t.lineno
+        else:
+            gap = t.index - last_pos
+        line += ' ' * max(gap, 0) + t.value
+        last_pos = t.index + len(t.value)
+        first = False
+    out.append(line)
+    return '\n'.join(out)
+
+
+def tts_differential():
+    import random
+    from types import SimpleNamespace
+    from mindsdb_sql.parser.utils import tokens_to_string
+    rnd = random.Random(16)
+    for _ in range(3000):
+        n = rnd.randint(1, 7)
+        pos, ln, toks = rnd.randint(0, 5), rnd.randint(1, 3), []
+        for i in range(n):
+            val = ''.join(rnd.choice('ab(),1') for _ in range(rnd.randint(1, 4)))
+            if i:
+                if rnd.random() < 0.3:
+                    ln += rnd.randint(1, 2)
+                    pos += rnd.randint(1, 6)
+                else:
+                    pos += rnd.randint(0, 3)
+            toks.append(SimpleNamespace(type='ID', value=val, lineno=ln, index=pos, end=pos + len(val)))
+            pos += len(val)
+        try:
+            got = tokens_to_string(toks)
+        except Exception as e:
+            got = f'{type(e).__name__}: {e}'
+        want = tts_spec(toks)
+        if got != want:
+            return (repr([(t.value, t.lineno, t.index) for t in toks]), f'tokens_to_string gives {got!r}', f'{want!r}')
+    return None
 
 
 def _run(rep, oid, run, post, fn, clause, solver=None):
